@@ -158,10 +158,16 @@ def worker_main(argv: list[str]) -> int:
             if minimised < 2:
                 minimised += 1
                 try:
-                    def still(c: dict, _tag=vj["tag"]):
+                    def still(c: dict, _tag=vj["tag"], _ctx=vj.get("context", {})):
                         o = mod.execute(c)
                         for vv in [o.violation] + list(o.extra_violations):
                             if vv is not None and vv.tag == _tag and match_known(vv.to_json(), findings) is None:
+                                # an unexpected exception must stay the *same* exception while shrinking
+                                if "exc_type" in _ctx and (
+                                    vv.context.get("exc_type") != _ctx.get("exc_type")
+                                    or str(vv.context.get("exc", ""))[:40] != str(_ctx.get("exc", ""))[:40]
+                                ):
+                                    continue
                                 return vv.event
                         return None
 
